@@ -18,11 +18,19 @@ open Nitime.Tridi Finset
 section bridge
 variable {K : Type} [Field K]
 
+theorem sumFrom_eq (f : ℕ → K) (k i : ℕ) (acc : K) :
+    sumFrom f k i acc = acc + ∑ j ∈ range k, f (i + j) := by
+  induction k generalizing i acc with
+  | zero => simp [sumFrom]
+  | succ k ih =>
+    rw [sumFrom, ih, Finset.sum_range_succ', add_assoc]
+    congr 1
+    rw [add_comm (∑ j ∈ range k, f (i + (j + 1)))]
+    congr 1
+    exact Finset.sum_congr rfl fun j _ => by rw [Nat.add_assoc, Nat.add_comm 1 j]
+
 theorem sumN_eq (n : ℕ) (f : ℕ → K) : sumN n f = ∑ i ∈ range n, f i := by
-  unfold sumN
-  induction n with
-  | zero => simp
-  | succ n ih => rw [List.range_succ, List.foldl_append, ih, Finset.sum_range_succ]; simp
+  unfold sumN; rw [sumFrom_eq]; simp
 
 theorem foldl_add (l : List K) (a : K) : l.foldl (fun acc x => acc + x) a = a + l.sum := by
   induction l generalizing a with
